@@ -69,7 +69,7 @@ def _ensures(C, res):
                ('best_returns_rows_in_ascending_query_id', z3.Implies(_mode(C, 'best'), forall([k, k2], z3.Implies(
                    z3.And(0 <= k, k <= k2, k2 < res.len), res[k].queryId <= res[k2].queryId), [MP(res.raw(k).t, res.raw(k2).t)]))),
                ('best_writes_no_additional_file', z3.Implies(_mode(C, 'best'), z3.And(Fv.writes1 == 0, Fv.writes2 == 0)))]
-        so = e.last_sorted
+        so = C.note('last_sorted')
         if so is not None and Fv.has('bestRows'):
             best = Fv.bestRows
             X = C._view_list(so['X'])
